@@ -155,6 +155,17 @@ func (c16) Run(ts *tape.Set, tier Tier) *Result {
 		if tier == Quick && spec.Size > 1500 {
 			spec.Size = spec.Size % 1500
 		}
+		// every plan rebuilds the whole file: keep it to a few hundred blocks
+		var csz int
+		if n, _ := fmt.Sscanf(spec.Chunker, "size-%d", &csz); n == 1 && csz > 0 {
+			lim := 250
+			if tier == Thorough {
+				lim = 600
+			}
+			if spec.Size/csz > lim {
+				spec.Size = lim*csz + spec.Size%csz
+			}
+		}
 		content = gen.Content(spec)
 		hasSource = true
 		width = spec.Width
